@@ -343,15 +343,23 @@ class C03(Prop):
       except (TypeError, ValueError, KeyError):
         continue
       break
-    items = [[f[0][1], g.valid(f[1])] for f in fields if not (f[1].get('d') is not None and rng.chance(0.3))]
+    # the frozen defaults as the real spec holds them (key order included)
+    state = tv.readback(tv.build(spec))
+    frozen_default = {key[1]: st[-1][1] for key, st in state[1] if st[-1][2]}
+
+    def norm(k, v):
+      # stated assumption: equal dicts come in equal key order where a frozen default is compared
+      if k in frozen_default and canon(v) == canon(frozen_default[k]):
+        return copy.deepcopy(frozen_default[k])
+      return v
+    items = [[f[0][1], norm(f[0][1], g.valid(f[1]))] for f in fields if not (f[1].get('d') is not None and rng.chance(0.3))]
     ops = []
     for _ in range(rng.randint(1, 7)):
       if rng.chance(0.25):
         k = rng.choice(names)
         fd = [f[1] for f in fields if f[0][1] == k][0]
         v = g.valid(fd) if rng.chance(0.7) else g.near_miss(fd)
-        if fd.get('fz') and fd.get('d') is not None and canon(v) == canon(fd['d']):
-          v = copy.deepcopy(fd['d'])      # stated assumption: equal dicts come in equal key order where a frozen default is compared
+        v = norm(k, v)
         ops.append([[('setattr' if kind == 'object' else 'setitem'), k, v], None])
         continue
       entries = []
@@ -861,7 +869,7 @@ class C03(Prop):
             cls = c04.PROP.classify(d, src, a[3])
             if ('<-' in cls or cls == 'missing-into-frozen') and (c04.dict_default_gap(d, src) or c04.dict_default_gap(src, d)):
               cls = 'dict-field-default-ignored'   # compatibility does not look at field defaults (C04 F42)
-            if '<-' in cls and member_ok(tv.build(c04.strip_rx(fields[k])), canon(a[3]), True):
+            if ('<-' in cls or cls == 'missing-into-frozen') and member_ok(tv.build(c04.strip_rx(fields[k])), canon(a[3]), True):
               cls = 'str-regex-ignored'      # is_compatible documents that it ignores Str regexes
             return cls
     return None
